@@ -147,7 +147,7 @@ func TestC16(t *testing.T) {
 		mc := NewMachine("C16", sch, column.Options{})
 		defer mc.Close()
 		defer mc.Guard(t)
-		cfg := TxnCfg{Prop: "C16", MaxSteps: 8, Rollback: true, Deletes: true, Inserts: true, Merges: true, OwnUpdates: true, Direct: true,
+		cfg := TxnCfg{Prop: "C16", MaxSteps: 8, Peeks: true, Rollback: true, Deletes: true, Inserts: true, Merges: true, OwnUpdates: true, Direct: true,
 			NoStoreOnDel: KFActive("f11-store-and-delete-same-txn"), NoOpAfterLenMerge: KFActive("f15-difflen-merge-reorder"), StringAlphabet: c16Alphabet}
 		const sCol = 1
 		sortName := ""
